@@ -393,6 +393,9 @@ def outgoing_catalogue():
         "text": lambda r: TextMessageProtocolEntity(gen.unicode_text(r, 1, 40), to=J(r)),
         "receipt": lambda r: OutgoingReceiptProtocolEntity(gen.msgid(r), J(r), read=r.random() < 0.5, participant=J(r) if r.random() < 0.4 else None),
         "receipt-multi": lambda r: OutgoingReceiptProtocolEntity([gen.msgid(r) for _ in range(r.randint(2, 5))], J(r), read=True),
+        # (the constructor documents list or tuple; one id may also come wrapped in either)
+        "receipt-multi-tuple": lambda r: OutgoingReceiptProtocolEntity(tuple(gen.msgid(r) for _ in range(r.randint(1, 5))), J(r), read=r.random() < 0.5),
+        "receipt-single-list": lambda r: OutgoingReceiptProtocolEntity([gen.msgid(r)], J(r), read=r.random() < 0.5),
         "ack": lambda r: OutgoingAckProtocolEntity(gen.msgid(r), r.choice(["receipt", "notification", "message"]), r.choice([None, "read", "picture"]), J(r), participant=J(r) if r.random() < 0.4 else None),
         "presence-available": lambda r: AvailablePresenceProtocolEntity(),
         "presence-unavailable": lambda r: UnavailablePresenceProtocolEntity(),
